@@ -644,7 +644,7 @@ def run(ctx):
             V.fail_tie("proof", "leanchecker rejected SimuVerif.Properties.C09", log=log)
     exe, drv, rebuilt = U.build()
     widen = 1 if proof["ok"] else 3
-    n_stage, n_poly, n_div, n_round, n_kern = (60, 30, 50, 8, 25) if tier == "quick" else (600, 300, 600, 80, 300)
+    n_stage, n_poly, n_div, n_round, n_kern = (60, 30, 50, 8, 25) if tier == "quick" else (500, 300, 500, 70, 300)
     S = U.Session(exe, drv)
     R = Runner(S)
     r = Rng(seed)
